@@ -129,4 +129,6 @@ GHOST = {
     'rx_ids_seen': 'Set[Int]',
     # transfer ids that got a send_bundle_finished signal
     'tx_finished': 'Set[Int]',
+    # ids queued for sending and not yet finished / ids announced as received and not yet popped (C18)
+    'tx_live': 'Set[Int]', 'rx_live': 'Set[Int]',
 }
